@@ -39,6 +39,18 @@ def lossless_cast(t):
     return m.group(1) if m else None
 
 
+# conversions std offers only as TryFrom because their success depends on the pointer width, and which cannot fail on any target
+# with pointers of at most 64 bits (every target h3 builds for)
+_INFALLIBLE_TRY = {("u64", "usize"), ("u128", "usize"), ("i128", "usize"), ("i64", "isize"), ("i128", "isize")}
+_TRYFROM = __import__("re").compile(r"^<(%s) as core::convert::TryFrom<(%s)>>::try_from$" % (_PRIM, _PRIM))
+
+
+def infallible_try_from(t):
+    """`u64::try_from(x_usize)` / `x.try_into()`: always Ok(x as u64); returns the target type."""
+    m = _TRYFROM.match(into_to_from(t) or "")
+    return m.group(1) if m and (m.group(1), m.group(2)) in _INFALLIBLE_TRY else None
+
+
 ALIAS = {}      # renamed function -> reference name (filled by mir.Program from normalise_renames)
 
 
